@@ -35,6 +35,7 @@ var vSortSpecs = []vSortSpec{
 	{"m = true sort by b desc, i", []vSortField{{"b", false}, {"i", true}}},
 	{"m = true sort by i, s desc", []vSortField{{"i", true}, {"s", false}}},
 	{"m = true sort by b, i, s, f, id desc", []vSortField{{"b", true}, {"i", true}, {"s", true}, {"f", true}, {"id", false}}},
+	{"m = true sort by b, i desc, s, f desc, m", []vSortField{{"b", true}, {"i", false}, {"s", true}, {"f", false}, {"m", true}}},
 }
 
 func init() {
@@ -82,6 +83,8 @@ func verifCmpField(f string, x, y *vRow, xi, yi int) int64 {
 			vlt, vgt = *x.F < *y.F, *x.F > *y.F
 		}
 		lt, gt = nullLess(x.F == nil, y.F == nil, vlt, vgt)
+	case "m":
+		lt, gt = verifrt.And(verifrt.Not(x.M), y.M), verifrt.And(x.M, verifrt.Not(y.M))
 	case "b":
 		var vlt, vgt bool
 		if x.B != nil && y.B != nil {
@@ -164,6 +167,9 @@ func verifC02Rows(n int, spec []vSortField) []*vRow {
 	need := map[string]bool{}
 	for _, f := range spec {
 		need[f.field] = true
+	}
+	if len(spec) == 1 && spec[0].field == "m" {
+		need = map[string]bool{} // FiveFieldTies: all other keys stay null
 	}
 	rows := make([]*vRow, n)
 	for r := range rows {
@@ -270,12 +276,19 @@ func verifC02(specs []vSortSpec) {
 
 func VerifC02_IdOrderPaging() { verifC02(vSortSpecs[:3]) }
 
+// five sort fields (the documented maximum), all keys null: every row ties on
+// all five, so the order must come from the id tie-break alone
+func VerifC02_FiveFieldTies() {
+	spec := vSortSpecs[len(vSortSpecs)-1]
+	verifC02([]vSortSpec{{spec.text, []vSortField{{"m", true}}}})
+}
+
 // quick: one single-field sort per key type and direction mix plus one
 // two-field sort; thorough: every listed specification (incl. the five-field
 // one) over three rows.
 func VerifC02_SortedPaging() {
 	if verifrt.Tier() == 1 {
-		verifC02(vSortSpecs[3:])
+		verifC02(vSortSpecs[3 : len(vSortSpecs)-1])
 		return
 	}
 	verifC02([]vSortSpec{vSortSpecs[3], vSortSpecs[6], vSortSpecs[8], vSortSpecs[10]})
